@@ -252,11 +252,20 @@ fn scenario(ctx: &Ctx, idx: u64, rep: &mut Report) {
     // chunks of every length up to 64 and a few beyond; all lengths as chunks in the thorough tier)
     if idx == 9 {
         acts = vec![Act::Call(0, Op::Configure, 0)];
+        // (each frame sits INSIDE a small transfer of its own — request, the frames, the count, a query — so that a frame
+        // that is lost, or that takes a neighbour with it, shows in the state the query reports)
         for n in 0..=255usize {
+            acts.push(Act::Raw(RefMsg::Request(addrs[0], O_RECV_PIX)));
             acts.push(Act::Raw(RefMsg::Unknown { addr: addrs[0], ty: 0x7E, data: rng.bytes(n) }));
             if n <= 64 || n >= 254 || n % 32 == 0 || !ctx.quick() {
-                acts.push(Act::Raw(RefMsg::Data { offset: n as u16, data: rng.bytes(n) }));
+                acts.push(Act::Raw(RefMsg::Data { offset: 0, data: rng.bytes(n) }));
+                acts.push(Act::Raw(RefMsg::Count(1)));
+            } else {
+                acts.push(Act::Raw(RefMsg::Count(0)));
             }
+            acts.push(Act::Raw(RefMsg::Query(addrs[0])));
+            // (received pixels are completed, so that the next request is one the sign answers)
+            acts.push(Act::Raw(RefMsg::Complete(addrs[0])));
         }
         acts.push(Act::Call(0, Op::SendPages, 1));
         rep.count("raw_frames_of_every_length_over_the_wire");
@@ -293,6 +302,12 @@ fn scenario(ctx: &Ctx, idx: u64, rep: &mut Report) {
             let b = catch(|| direct.borrow_mut().process_message(refs::from_ref(m)).map(|r| r.map(|x| refs::to_ref(&x))).map_err(|e| e.to_string()));
             steps.push(format!("raw {}: wire {:?} / direct {:?}", m.show().chars().take(40).collect::<String>(), a.as_ref().map_err(|p| p.msg.clone()), b.as_ref().map_err(|p| p.msg.clone())));
             let same = match (&a, &b) {
+                // (a request no sign answers: silence on the bus; the serial path cannot express silence and reports the
+                // missing reply as an error — C16's subject, not a difference between the paths)
+                (Ok(Err(_)), Ok(Ok(None))) if crate::c16::reply_due(m) => {
+                    rep.count("requests_met_with_silence_on_both_paths");
+                    true
+                }
                 (Ok(x), Ok(y)) => x == y,
                 _ => false,
             };
@@ -655,7 +670,7 @@ pub fn run(ctx: &Ctx) -> Outcome {
         floor("undecodable lines at the bridge", report.get("bridge_undecodable_lines") > 100, report.get("bridge_undecodable_lines")),
         floor("I/O faults at the bridge's own port (read fault at every byte, write fault at every call)", report.get("bridge_read_faults") > 100 && report.get("bridge_write_faults") > 50, report.get("bridge_write_faults")),
         floor("scenarios over a line whose writes block longer than the pacing pause", report.get("scenarios_over_a_slow_line") >= 20, report.get("scenarios_over_a_slow_line")),
-        floor("raw frames of every data length 0..=255 over both paths in one scenario", report.get("raw_frames_of_every_length_over_the_wire") == 1 && report.get("raw_messages_on_both_paths") >= 256 + 70, format!("{} scenario, {} raw messages in all", report.get("raw_frames_of_every_length_over_the_wire"), report.get("raw_messages_on_both_paths"))),
+        floor("raw frames of every data length 0..=255 over both paths in one scenario", report.get("raw_frames_of_every_length_over_the_wire") == 1 && report.get("raw_messages_on_both_paths") >= 256 * 5 + 70, format!("{} scenario, {} raw messages in all", report.get("raw_frames_of_every_length_over_the_wire"), report.get("raw_messages_on_both_paths"))),
         floor("a transfer of 300 data chunks in a row over the wire", report.get("long_transfers_over_the_wire") == 1 && report.get("long_transfers_that_succeeded_on_both_paths") == 1, format!("{} / {} succeeded on both paths", report.get("long_transfers_over_the_wire"), report.get("long_transfers_that_succeeded_on_both_paths"))),
         floor("70 000 messages through one serial bus and one bridge", report.get("marathon_messages_on_both_paths") == 70_000, report.get("marathon_messages_on_both_paths")),
         floor("bridge pumps checked", report.get("bridge_pumps_checked") > 1000, report.get("bridge_pumps_checked")),
